@@ -394,7 +394,9 @@ func TestVerifC14(t *testing.T) {
 				}
 				// thorough tier: all spellings go through the SASL layer when the transition reaches a
 				// state for the first time; the table-level observation is always complete
-				c14Observe(r, a, ref2, cs, users, passwords, thorough && !seen[ref.canon()])
+				if c14Observe(r, a, ref2, cs, users, passwords, thorough && !seen[ref.canon()]) {
+					r.Outcome(fmt.Sprintf("%s -> %d account(s), complete observation agrees with the reference", op.Kind, len(ref2)))
+				}
 				if idx%397 == 0 {
 					r.Sample(cs)
 				}
